@@ -305,6 +305,12 @@ class Item:
         body2 = _VIS_RE.sub("pub", body)
         if body2 != body:
             self.dropped.append("visibility pub(..) -> pub")
+        # private items are widened to pub (Verus' visibility rules for specs); fields keep theirs
+        m = re.search(r"(?m)^(\s*)(?!pub\b)(struct|enum|union|mod|const|static|type|fn)\b", body2)
+        if m and body2[:m.start()].strip().replace("\n", "").startswith(("#", "")) and not re.search(r"\bpub\b", body2[:m.start()]):
+            if body2[:m.start()].strip() == "" or body2[:m.start()].strip().startswith("#"):
+                body2 = body2[:m.start(2)] + "pub " + body2[m.start(2):]
+                self.dropped.append("visibility (private) -> pub")
         return _squeeze(body2)
 
 
@@ -358,7 +364,8 @@ class FnItem:
         return self.src.mask[self.body_open:self.body_close + 1]
 
     # ------------------------------------------------------------ rendering
-    def render(self, *, ret: str | None = None, clauses: str = "", loops: dict | None = None,
+    def render(self, *, ret: str | None = None, clauses: str = "", loops: dict | None = None, loop_ends: dict | None = None,
+               loop_befores: dict | None = None,
                inserts: list | None = None, subst: list | None = None, rename: str | None = None,
                drop_const=True, drop_unsafe=False, sig_subst: list | None = None) -> str:
         """Produce the Verus text of this fn.
@@ -397,9 +404,31 @@ class FnItem:
                 if ordn >= len(lp):
                     raise LostAnchor(f"{self.src.path}:{self.line} fn {self.name}: loop #{ordn} not found ({len(lp)} loops)")
                 edits.append((lp[ordn], "\n" + text.strip() + "\n"))
+        if loop_befores:
+            kws = _find_loop_keywords(bmask)
+            for ordn, text in loop_befores.items():
+                if ordn >= len(kws):
+                    raise LostAnchor(f"{self.src.path}:{self.line} fn {self.name}: loop #{ordn} not found ({len(kws)} loops)")
+                edits.append((kws[ordn], "\n" + text.strip() + "\n"))
+        if loop_ends:
+            # ghost text placed at the very end of a loop body (before its closing brace),
+            # located structurally so that it survives edits inside the body
+            lp = _find_loops(bmask)
+            for ordn, text in loop_ends.items():
+                if ordn >= len(lp):
+                    raise LostAnchor(f"{self.src.path}:{self.line} fn {self.name}: loop #{ordn} not found ({len(lp)} loops)")
+                close = _match(bmask, lp[ordn])
+                edits.append((close, "\n" + text.strip() + "\n"))
         for off, text in sorted(edits, reverse=True):
             body = body[:off] + text + body[off:]
         for pat, rep, cnt in (subst or []):
+            if cnt == "first":
+                # replace the first occurrence only (at least one must exist)
+                body, k = re.subn(pat, rep, body, count=1)
+                if k != 1:
+                    raise LostAnchor(f"{self.src.path}:{self.line} fn {self.name}: subst {pat!r} matched 0 times")
+                self.dropped.append(f"subst (first occurrence) {pat!r} -> {rep!r}")
+                continue
             body, k = re.subn(pat, rep, body)
             if k != cnt:
                 raise LostAnchor(f"{self.src.path}:{self.line} fn {self.name}: subst {pat!r} matched {k} != {cnt}")
@@ -448,7 +477,16 @@ def _name_return(header: str, ret: str, fi: FnItem) -> str:
     return header[:pos] + f"-> ({ret}: {ty})" + where
 
 
+def _find_loop_keywords(bmask: str) -> list[int]:
+    """Offsets of the loop keywords, parallel to _find_loops."""
+    return [kw for kw, _ in _find_loops_full(bmask)]
+
+
 def _find_loops(bmask: str) -> list[int]:
+    return [op for _, op in _find_loops_full(bmask)]
+
+
+def _find_loops_full(bmask: str) -> list:
     """Offsets (in body text) of the `{` that opens the body of each loop, in
     source order of the loop keywords."""
     out = []
@@ -483,7 +521,7 @@ def _find_loops(bmask: str) -> list[int]:
                 break
             k += 1
         if found >= 0:
-            out.append(found)
+            out.append((m.start(), found))
     return out
 
 
